@@ -149,7 +149,7 @@ func runDupPinned(ctx context.Context, t interface {
 func TestLocalAndPinnedDuplicate(t *testing.T) {
 	r := evid.R()
 	ctx := context.Background()
-	r.Check(t, r.Scale(1200, 12000), 5, func(t *rapid.T) {
+	r.Check(t, r.Scale(6000, 40000), 5, func(t *rapid.T) {
 		c, _ := genCase(t)
 		c.Layout = "dup-pinned"
 		chooseRemote(t, c)
@@ -163,7 +163,8 @@ func TestLocalAndPinnedDuplicate(t *testing.T) {
 			}
 		}
 		if len(locals) == 0 || len(remotes) == 0 {
-			t.Skip("needs a local and a pinned module")
+			r.Class("dup-pinned:not-applicable")
+			return
 		}
 		// the duplicated path: imported by some local file, owned by a local or a pinned module, and free of
 		// imports of its own (so that the copy does not drag dependencies into the other module)
@@ -189,7 +190,8 @@ func TestLocalAndPinnedDuplicate(t *testing.T) {
 		}
 		sort.Strings(cands)
 		if len(cands) == 0 {
-			t.Skip("no imported leaf file")
+			r.Class("dup-pinned:not-applicable")
+			return
 		}
 		p := cands[rapid.IntRange(0, len(cands)-1).Draw(t, "dup-path")]
 		owner := c.modOf(p)
@@ -200,7 +202,8 @@ func TestLocalAndPinnedDuplicate(t *testing.T) {
 			other = &c.Mods[remotes[rapid.IntRange(0, len(remotes)-1).Draw(t, "dup-remote")]]
 		}
 		if other == owner {
-			t.Skip("same module")
+			r.Class("dup-pinned:not-applicable")
+			return
 		}
 		other.Files[p] = owner.Files[p]
 		c.Plant, c.DupPath, c.DupMods = "duplicate-path", p, []string{opaque(owner), opaque(other)}
